@@ -290,7 +290,24 @@ static void op_cfg(const char *line) {
   cfg_wait = kv(line, "wait", 0); cfg_view = kv(line, "view", 0); cfg_dsz = kv(line, "dsz", 0);
   scr = vs_screen(W, H, BPP / 8);
   if (!scr) { out("cfg fail\n"); _exit(0); }
-  { int i; for (i = 0; i < W * H * (BPP / 8); i++) scr->frameBuffer[i] = (char)(i * 7 + 3); }
+  { /* framebuffer content classes: 0 byte pattern, 1 flat, 2 few colours, 3 noise, 4 smooth gradient (JPEG-friendly) */
+    int content = kv(line, "content", 0), x, y, bpx = BPP / 8; unsigned lcg = 12345;
+    for (y = 0; y < H; y++) for (x = 0; x < W; x++) {
+      uint32_t px; int k; unsigned char *q = (unsigned char *)scr->frameBuffer + ((size_t)y * W + x) * bpx;
+      switch (content) {
+      case 1: px = 0x00336699u; break;
+      case 2: px = ((x / 8 + y / 8) & 1) ? 0x00ff0000u : (((x / 16) & 1) ? 0x0000ff00u : 0x000000ffu); break;
+      case 3: lcg = lcg * 1103515245u + 12345u; px = lcg >> 8; break;
+      case 4: px = ((uint32_t)(x * 255 / (W > 1 ? W - 1 : 1)) << 16) | ((uint32_t)(y * 255 / (H > 1 ? H - 1 : 1)) << 8) |
+                   (uint32_t)((x + y) * 255 / (W + H > 2 ? W + H - 2 : 1)); break;
+      default: px = 0; break;
+      }
+      if (content == 0) { for (k = 0; k < bpx; k++) q[k] = (unsigned char)((((size_t)y * W + x) * bpx + k) * 7 + 3); }
+      else if (bpx == 4) memcpy(q, &px, 4);
+      else if (bpx == 2) { uint16_t v = (uint16_t)(((px >> 19) & 31) << 10 | ((px >> 11) & 31) << 5 | ((px >> 3) & 31)); memcpy(q, &v, 2); }
+      else q[0] = (unsigned char)(((px >> 22) & 3) << 4 | ((px >> 14) & 3) << 2 | ((px >> 6) & 3));
+    }
+  }
   scr->deferUpdateTime = BIGDEFER;
   scr->alwaysShared = TRUE;
   scr->newClientHook = h_new;
